@@ -3,7 +3,7 @@
 From Coq Require Import ZArith List Bool Permutation Sorting.Sorted.
 From VV Require Import gen.GenNumeric model.Alloc proofs.AllocProofs proofs.AllocGreedyProofs proofs.AllocLinearProofs
   proofs.AllocHillProofs proofs.AllocHillNbrProofs proofs.AllocHillSearchProofs proofs.AllocHillPeakProofs
-  proofs.AllocHillTermProofs proofs.AllocExamples.
+  proofs.AllocHillTermProofs proofs.AllocHillOutcomeProofs proofs.AllocExamples.
 Import ListNotations.
 Open Scope Z_scope.
 
@@ -59,10 +59,9 @@ Proof. exact greedy_zero_size_refuted_lemma. Qed.
 
 (* ------------------------------ Linear ------------------------------ *)
 (* R: any equivalence containing what the input declares (equal compression config, equal equivalence
-   id).  Tensors that are not R-related get disjoint intervals; every address is a multiple of the
-   granularity; total_sz bounds every (padded) end, is the padded end of some tensor and exceeds the
-   highest end by less than one granule. *)
-Theorem linear_no_overlap_aligned_total : forall g (R : lin -> lin -> Prop), 0 < g ->
+   id); tensors declared equivalent have equal sizes.  Tensors that are not R-related get disjoint
+   intervals (whatever their live ranges). *)
+Theorem linear_no_overlap : forall g (R : lin -> lin -> Prop), 0 < g ->
   (forall a, R a a) -> (forall a b, R a b -> R b a) -> (forall a b c, R a b -> R b c -> R a c) ->
   (forall a b, linked a b -> R a b) ->
   forall es addrs total,
@@ -70,29 +69,80 @@ Theorem linear_no_overlap_aligned_total : forall g (R : lin -> lin -> Prop), 0 <
     (forall e1 e2, In e1 es -> In e2 es -> linked e1 e2 -> l_size e1 = l_size e2) ->
     linear g es = Ok (addrs, total) ->
     length addrs = length es /\
-    (forall i j e1 e2 a1 a2, i <> j ->
+    forall i j e1 e2 a1 a2, i <> j ->
        nth_error es i = Some e1 -> nth_error es j = Some e2 ->
        nth_error addrs i = Some a1 -> nth_error addrs j = Some a2 ->
-       R e1 e2 \/ disjoint a1 (l_size e1) a2 (l_size e2)) /\
-    (forall i e a, nth_error es i = Some e -> nth_error addrs i = Some a ->
-       (g | a) /\ 0 <= a /\ a + l_size e <= a + round_up (l_size e) g <= total) /\
-    (es = [] -> total = 0) /\
-    (es <> [] -> exists i e a, nth_error es i = Some e /\ nth_error addrs i = Some a /\
-                               total = a + round_up (l_size e) g /\ total < a + l_size e + g).
-Proof. intros g R Hg Hr Hs Ht Hl. exact (linear_spec_lemma g Hg R Hr Hs Ht Hl). Qed.
+       R e1 e2 \/ disjoint a1 (l_size e1) a2 (l_size e2).
+Proof.
+  intros g R Hg Hr Hs Ht Hl es addrs total H1 H2 H3.
+  destruct (linear_spec_lemma g Hg R Hr Hs Ht Hl es addrs total H1 H2 H3) as (A & B & _). split; assumption.
+Qed.
+
+(* tensors declared equivalent share one address *)
+Theorem linear_equivalent_share : forall g es addrs total i j e1 e2 a1 a2,
+  linear g es = Ok (addrs, total) ->
+  nth_error es i = Some e1 -> nth_error es j = Some e2 ->
+  nth_error addrs i = Some a1 -> nth_error addrs j = Some a2 ->
+  (l_lut e1 = 0 /\ l_lut e2 = 0 /\ l_wcc e1 <> 0 /\ l_wcc e1 = l_wcc e2) \/
+  (l_lut e1 <> 0 /\ l_lut e2 <> 0 /\ l_eq e1 = l_eq e2) ->
+  a1 = a2.
+Proof. exact linear_share_lemma. Qed.
+
+(* every address is a non-negative multiple of the allocation granularity (verify_alignment never raises) *)
+Theorem linear_aligned : forall g es addrs total i e a, 0 < g ->
+  (forall e, In e es -> 0 <= l_size e) ->
+  (forall e1 e2, In e1 es -> In e2 es -> linked e1 e2 -> l_size e1 = l_size e2) ->
+  linear g es = Ok (addrs, total) ->
+  nth_error es i = Some e -> nth_error addrs i = Some a -> (g | a) /\ 0 <= a.
+Proof.
+  intros g es addrs total i e a Hg H1 H2 H3 He Ha.
+  destruct (linear_spec_lemma g Hg (fun _ _ => True) (fun _ => I) (fun _ _ _ => I) (fun _ _ _ _ _ => I) (fun _ _ _ => I)
+              es addrs total H1 H2 H3) as (_ & _ & C & _).
+  destruct (C i e a He Ha) as (X & Y & _). split; assumption.
+Qed.
+
+(* total_sz bounds every (granule padded) end address, is the padded end of some tensor and exceeds the
+   highest end address by less than one granule *)
+Theorem linear_total_is_extent : forall g es addrs total, 0 < g ->
+  (forall e, In e es -> 0 <= l_size e) ->
+  (forall e1 e2, In e1 es -> In e2 es -> linked e1 e2 -> l_size e1 = l_size e2) ->
+  linear g es = Ok (addrs, total) ->
+  (forall i e a, nth_error es i = Some e -> nth_error addrs i = Some a ->
+     a + l_size e <= a + round_up (l_size e) g <= total) /\
+  (es = [] -> total = 0) /\
+  (es <> [] -> exists i e a, nth_error es i = Some e /\ nth_error addrs i = Some a /\
+                             total = a + round_up (l_size e) g /\ total < a + l_size e + g).
+Proof.
+  intros g es addrs total Hg H1 H2 H3.
+  destruct (linear_spec_lemma g Hg (fun _ _ => True) (fun _ => I) (fun _ _ _ => I) (fun _ _ _ _ _ => I) (fun _ _ _ => I)
+              es addrs total H1 H2 H3) as (_ & _ & C & D & E).
+  split; [|split; assumption]. intros i e a He Ha. destruct (C i e a He Ha) as (_ & _ & Z). exact Z.
+Qed.
 
 (* ------------------------------ HillClimb ------------------------------ *)
-(* for every oracle stream: non-overlap of co-live ranges, alignment, non-negative addresses *)
-Theorem hillclimb_no_overlap_aligned : forall (S : Type) (next : S -> Z * S) lrs mi limit s addrs best iters draws,
+(* hypotheses: hc_wf = 0 <= start_time, 0 <= size, 0 < alignment; footprint_bound = sum of size + alignment
+   (the initial pass cannot exceed best_size = 2^63).  For every oracle stream: *)
+Theorem hillclimb_no_overlap : forall (S : Type) (next : S -> Z * S) lrs mi limit s addrs best iters draws,
   Forall hc_wf lrs -> footprint_bound lrs <= 2 ^ 63 ->
   hillclimb S next lrs mi limit s = Ok (addrs, best, iters, draws) ->
   length addrs = length lrs /\
-  (forall i j r1 r2 a1 a2, i <> j ->
+  forall i j r1 r2 a1 a2, i <> j ->
      nth_error lrs i = Some r1 -> nth_error lrs j = Some r2 ->
      nth_error addrs i = Some a1 -> nth_error addrs j = Some a2 ->
-     time_overlap r1 r2 -> disjoint a1 (lr_size r1) a2 (lr_size r2)) /\
-  (forall i r a, nth_error lrs i = Some r -> nth_error addrs i = Some a -> (lr_align r | a) /\ 0 <= a).
-Proof. intros S next lrs mi limit s addrs best iters draws Hwf Hfb H. exact (hillclimb_valid_lemma S next lrs Hwf mi limit s addrs best iters draws Hfb H). Qed.
+     time_overlap r1 r2 -> disjoint a1 (lr_size r1) a2 (lr_size r2).
+Proof.
+  intros S next lrs mi limit s addrs best iters draws Hwf Hfb H.
+  destruct (hillclimb_valid_lemma S next lrs Hwf mi limit s addrs best iters draws Hfb H) as (A & B & _). split; assumption.
+Qed.
+
+Theorem hillclimb_aligned : forall (S : Type) (next : S -> Z * S) lrs mi limit s addrs best iters draws i r a,
+  Forall hc_wf lrs -> footprint_bound lrs <= 2 ^ 63 ->
+  hillclimb S next lrs mi limit s = Ok (addrs, best, iters, draws) ->
+  nth_error lrs i = Some r -> nth_error addrs i = Some a -> (lr_align r | a) /\ 0 <= a.
+Proof.
+  intros S next lrs mi limit s addrs best iters draws i r a Hwf Hfb H.
+  destruct (hillclimb_valid_lemma S next lrs Hwf mi limit s addrs best iters draws Hfb H) as (_ & _ & C). apply C.
+Qed.
 
 (* the total computed by tensor_allocation.hillclimb_allocate_live_ranges is exactly the highest end address *)
 Theorem hillclimb_total_is_extent : forall lrs addrs,
@@ -131,6 +181,18 @@ Theorem hillclimb_search_iterations_bound : forall (S : Type) (next : S -> Z * S
            (search S next lrs nbrs minreq maxit limit x).
 Proof. exact search_iterations_bound_lemma. Qed.
 
+(* the whole run, for every stream: it ends with addresses after at most hc_iteration_bound iterations
+   of the search loop, or with one of the modelled exceptions 1 (ValueError of random.randint, see
+   hillclimb_randint_refuted), 2 (IndexError), 3 (endless predecessor walk); never by running out of the
+   fuel of allocate_lr (4) or of search (5).  _partial: 2 and 3 are not proved unreachable. *)
+Theorem hillclimb_terminates_partial : forall (S : Type) (next : S -> Z * S) lrs mi limit s,
+  Forall hc_wf lrs -> footprint_bound lrs <= 2 ^ 63 ->
+  match hillclimb S next lrs mi limit s with
+  | Ok (_, _, iters, _) => 0 <= iters <= hc_iteration_bound lrs mi
+  | Err c => c = 1 \/ c = 2 \/ c = 3
+  end.
+Proof. exact hillclimb_terminates_lemma. Qed.
+
 (* the unguarded random.randint(0, len(turn_list) - 2): ValueError on a five-range input *)
 Theorem hillclimb_randint_refuted :
   exists lrs mi limit s,
@@ -144,12 +206,17 @@ Print Assumptions greedy_aligned.
 Print Assumptions greedy_total_is_extent.
 Print Assumptions greedy_total_exact.
 Print Assumptions greedy_zero_size_refuted.
-Print Assumptions linear_no_overlap_aligned_total.
-Print Assumptions hillclimb_no_overlap_aligned.
+Print Assumptions linear_no_overlap.
+Print Assumptions linear_equivalent_share.
+Print Assumptions linear_aligned.
+Print Assumptions linear_total_is_extent.
+Print Assumptions hillclimb_no_overlap.
+Print Assumptions hillclimb_aligned.
 Print Assumptions hillclimb_total_is_extent.
 Print Assumptions hillclimb_ge_peak.
 Print Assumptions hillclimb_allocate_lr_terminates.
 Print Assumptions hillclimb_search_terminates.
 Print Assumptions hillclimb_search_iterations_bound.
+Print Assumptions hillclimb_terminates_partial.
 Print Assumptions hillclimb_randint_refuted.
 Print Assumptions gen_round_up_is_model.
